@@ -131,5 +131,40 @@ Theorem C20_answered_distance_small_e : forall e0 i r0 w m n b ts j Ew radius th
 Proof. exact P_Sgp4Radius.distance_leaf3. Qed.
 Print Assumptions C20_answered_distance_small_e.
 
+(* the specific orbital energy: the short-period corrections move it by at most 1 percent of mu / 2a when eL^2 <= 4/25 and the
+   osculating perigee a (1 - eL) is at least 1.03 earth radii (units: earth radii, minutes, mu = ke^2) ... *)
+From PyOrb.proofs Require P_Sgp4Energy.
+Theorem C20_energy : forall el t e Ew, eL2 el t e <= 4 / 25 -> 103 / 100 <= a el t * (1 - sqrt (eL2 el t e)) ->
+  Rabs (((rdotk el t e Ew ^ 2 + rfdotk el t e Ew ^ 2) / 2 - ke ^ 2 / rk el t e Ew) - (- ke ^ 2 / (2 * a el t)))
+    <= ke ^ 2 / (2 * a el t) / 100.
+Proof. exact P_Sgp4Energy.energy_within_one_percent. Qed.
+Print Assumptions C20_energy.
+
+(* ... and in km, s on the returned elements of every answered propagation (|velocity|^2 = rdk^2 + rfdk^2: C20_speed,
+   |position| = radius: C20_radius), mu_km = ke^2 XKMPER^3 / 3600 = 398600.8 km^3/s^2 *)
+Theorem C20_mu : Rabs (P_Sgp4Energy.mu_km - 3986008 / 10) <= 1 / 10.
+Proof. exact P_Sgp4Energy.mu_km_value. Qed.
+Print Assumptions C20_mu.
+
+Theorem C20_answered_energy : forall e0 i r0 w m n b ts j Ew radius theta eqinc ascn rdk rfdk smjaxs,
+  gen_init_outcome e0 i r0 w m n b = InitMode NearNorm 1 -> gen_nn1_prop_outcome e0 i r0 w m n b ts = PropOk j ->
+  exit_ok e0 i r0 w m n b ts Ew radius theta eqinc ascn rdk rfdk smjaxs ->
+  let El := E e0 i r0 w m n b in let T := mkT false ts in let ec := ecl e0 i r0 w m n b ts in
+  eL2 El T ec <= 4 / 25 -> 103 / 100 <= a El T * (1 - sqrt (eL2 El T ec)) ->
+  Rabs (((rdk ^ 2 + rfdk ^ 2) / 2 - P_Sgp4Energy.mu_km / radius) - (- P_Sgp4Energy.mu_km / (2 * (a El T * XKMPER))))
+    <= P_Sgp4Energy.mu_km / (2 * (a El T * XKMPER)) / 100.
+Proof. exact P_Sgp4Energy.energy_leaf1. Qed.
+Print Assumptions C20_answered_energy.
+
+Theorem C20_answered_energy_small_e : forall e0 i r0 w m n b ts j Ew radius theta eqinc ascn rdk rfdk smjaxs,
+  gen_init_outcome e0 i r0 w m n b = InitMode NearNorm 3 -> gen_nn3_prop_outcome e0 i r0 w m n b ts = PropOk j ->
+  exit_ok3 e0 i r0 w m n b ts Ew radius theta eqinc ascn rdk rfdk smjaxs ->
+  let El := E e0 i r0 w m n b in let T := mkT true ts in let ec := ecl3 e0 i r0 w m n b ts in
+  eL2 El T ec <= 4 / 25 -> 103 / 100 <= a El T * (1 - sqrt (eL2 El T ec)) ->
+  Rabs (((rdk ^ 2 + rfdk ^ 2) / 2 - P_Sgp4Energy.mu_km / radius) - (- P_Sgp4Energy.mu_km / (2 * (a El T * XKMPER))))
+    <= P_Sgp4Energy.mu_km / (2 * (a El T * XKMPER)) / 100.
+Proof. exact P_Sgp4Energy.energy_leaf3. Qed.
+Print Assumptions C20_answered_energy_small_e.
+
 Example C20_inhabited : 0 < 7000 * (15 / 2).
 Proof. lra. Qed.
